@@ -59,9 +59,109 @@ class Tr:
         raise Refuse(f"expression {ast.unparse(e)}")
 
 
+class ShTr:
+    """typed expressions of the loop body of `shirokov_inverse`: kinds 'mv' (multivector), 'sc' (coefficient), 'nat' (N, k)"""
+    def __init__(self):
+        self.env = {'U': ('mv', 'U'), 'N': ('nat', 'N'), 'k': ('nat', 'k')}
+
+    def sc(self, e):
+        kind, t = self.tr(e)
+        if kind == 'nat':
+            return f"(({t} : ℕ) : K)"
+        if kind != 'sc':
+            raise Refuse(f"{ast.unparse(e)} is not a coefficient")
+        return t
+
+    def tr(self, e):
+        if isinstance(e, ast.Name):
+            if e.id in self.env:
+                return self.env[e.id]
+            raise Refuse(f"unbound name {e.id}")
+        if isinstance(e, ast.Subscript) and isinstance(e.value, ast.Attribute) and e.value.attr == 'value' \
+                and isinstance(e.slice, ast.Constant) and e.slice.value == 0:
+            kind, t = self.tr(e.value.value)
+            if kind != 'mv':
+                raise Refuse(".value[0] of a non-multivector")
+            return ('sc', f"({t} fzero)")
+        if isinstance(e, ast.BinOp):
+            if isinstance(e.op, ast.Div):
+                return ('sc', f"({self.sc(e.left)} / {self.sc(e.right)})")
+            lk, lt = self.tr(e.left)
+            if isinstance(e.op, ast.Mult):
+                if lk == 'mv' and isinstance(e.right, ast.Constant) and e.right.value == 1.0:
+                    return ('mv', lt)                      # `U * 1.0`: the cast to float
+                rk, rt = self.tr(e.right)
+                if lk == 'mv' and rk == 'mv':
+                    return ('mv', f"(gmul n sig {lt} {rt})")
+                if lk != 'mv' and rk != 'mv':
+                    return ('sc', f"({self.sc(e.left)} * {self.sc(e.right)})")
+                raise Refuse(f"product {ast.unparse(e)}")
+            if isinstance(e.op, ast.Sub):
+                rk, rt = self.tr(e.right)
+                if lk == 'mv' and rk == 'mv':
+                    return ('mv', f"({lt} - {rt})")
+                if lk == 'mv':
+                    return ('mv', f"({lt} - {self.sc(e.right)} • one n)")
+                raise Refuse(f"difference {ast.unparse(e)}")
+        raise Refuse(f"expression {ast.unparse(e)}")
+
+
+def shirokov(repo, status):
+    """the loop of `_shirokov_inverse.shirokov_inverse(U)`: `Uk = U*1.0; for k in range(1, N): Ck = ..; adjU = ..; Uk = ..;` zero test;
+    `return adjU / Uk.value[0]` — translated statement by statement into a fold over `k = 1 … N−1` with state `(Uk, adjU)`"""
+    name = 'shirokov_loop'
+    try:
+        tree = ast.parse((repo / 'clifford' / '_layout.py').read_text())
+        cls = [n for n in tree.body if isinstance(n, ast.ClassDef) and n.name == 'Layout'][0]
+        outer = [n for n in cls.body if isinstance(n, ast.FunctionDef) and n.name == '_shirokov_inverse'][0]
+        inner = [n for n in outer.body if isinstance(n, ast.FunctionDef) and n.name == 'shirokov_inverse'][0]
+        if [a.arg for a in inner.args.args] != ['U']:
+            raise Refuse("parameters")
+        body = [s for s in inner.body if not (isinstance(s, ast.Expr) and isinstance(s.value, ast.Constant))]
+        if len(body) != 4:
+            raise Refuse("not `init; for; zero test; return`")
+        init, loop, test, ret = body
+        tr = ShTr()
+        if not (isinstance(init, ast.Assign) and ast.unparse(init.targets[0]) == 'Uk'):
+            raise Refuse("first statement does not assign Uk")
+        k0, t0 = tr.tr(init.value)
+        if k0 != 'mv':
+            raise Refuse("Uk is not a multivector")
+        if not (isinstance(loop, ast.For) and ast.unparse(loop.target) == 'k' and ast.unparse(loop.iter) == 'range(1, N)' and not loop.orelse):
+            raise Refuse("loop is not `for k in range(1, N)`")
+        tr.env['Uk'] = ('mv', 'st.1')
+        assigned = []
+        for st in loop.body:
+            if not (isinstance(st, ast.Assign) and len(st.targets) == 1 and isinstance(st.targets[0], ast.Name)):
+                raise Refuse(f"loop statement {ast.unparse(st)[:40]}")
+            tr.env[st.targets[0].id] = tr.tr(st.value)
+            assigned.append(st.targets[0].id)
+        if 'adjU' not in assigned or assigned[-1] != 'Uk':
+            raise Refuse("the loop body does not end by assigning Uk after adjU")
+        if tr.env['adjU'][0] != 'mv' or tr.env['Uk'][0] != 'mv':
+            raise Refuse("kinds")
+        if ast.unparse(test) != "if Uk.value[0] == 0:\n    raise ValueError('Multivector has no inverse')":
+            raise Refuse("zero test is not `if Uk.value[0] == 0: raise ValueError`")
+        if ast.unparse(ret) != 'return adjU / Uk.value[0]':
+            raise Refuse("return is not `adjU / Uk.value[0]`")
+        d = (f"def {name} {{K : Type}} [Field K] (n : Nat) (sig : Nat → K) (U : CMV n K) (N : Nat) : CMV n K × CMV n K :=\n"
+             f"  (List.range' 1 (N - 1)).foldl (fun st k => ({tr.env['Uk'][1]}, {tr.env['adjU'][1]})) ({t0}, 0)\n")
+        t = (f"/-- the loop of `shirokov_inverse` as the source has it now is the recursion `C05.shirokov_scalar_n1…n3` / `shirokov_correct_n1…n3` are about -/\n"
+             f"theorem {name}_eq {{K : Type}} [Field K] (n : Nat) (sig : Nat → K) (U : CMV n K) (N : Nat) : GenClosed.{name} n sig U N = shLoop n sig U N := by\n"
+             f"  unfold GenClosed.{name} shLoop shStep\n"
+             f"  first\n  | rfl\n  | (congr 1; funext st k; simp only [Prod.mk.injEq]; constructor <;> (first | rfl | (congr 1; funext c; simp only [Pi.sub_apply, Pi.smul_apply, smul_eq_mul]; ring) | (funext c; simp only [Pi.sub_apply, Pi.smul_apply, smul_eq_mul]; ring)))\n")
+        status[name] = dict(status='ok')
+        return d, t
+    except Refuse as r:
+        status[name] = dict(status='refused', reason=str(r))
+    except Exception as r:
+        status[name] = dict(status='refused', reason=repr(r)[:200])
+    return None, None
+
+
 def main():
     repo = Path(sys.argv[sys.argv.index('--repo') + 1]) if '--repo' in sys.argv else Path('/repo')
-    out = ["import Proofs.Hitzer\nimport Proofs.Hitzer4\nimport Proofs.Hitzer5\n\n"
+    out = ["import Proofs.Hitzer\nimport Proofs.Hitzer4\nimport Proofs.Hitzer5\nimport Proofs.Shirokov\n\n"
            "/-! GENERATED from the current source by translate/closed2lean.py — do not edit -/\n"
            "set_option linter.unusedVariables false\nnamespace GenClosed\nvariable {R : Type} [CommRing R]\n\n"]
     status, thms = {}, []
@@ -128,6 +228,10 @@ def main():
             status[name] = dict(status='refused', reason=str(r))
         except Exception as r:
             status[name] = dict(status='refused', reason=repr(r)[:200])
+    shir_def, shir_thm = shirokov(repo, status)
+    if shir_def:
+        out.append(shir_def)
+        thms.append(('shirokov_loop', shir_thm))
     out.append("end GenClosed\n\n")
     names = {}
     for name, t in thms:
